@@ -220,6 +220,9 @@ SIZE_FAMILIES = {
     "huge-message-literal": lambda n: b'fn f() { info!("' + b"x" * n + b'"); }\n',
     "huge-comment": lambda n: b"/* " + b"c" * n + b' */\nfn f() { info!("x"); }\n',
     "base64-data-in-string-literal": lambda n: b'const DATA: &str = "' + b"QUJD" * (n // 4) + b'";\nfn f() { info!("x"); }\n',
+    # a modest number (60) of string literals containing "/*" (glob patterns, never closed by "*/") spread over a file of size n
+    "glob-patterns-in-strings": lambda n: b"".join(
+        b'let p%d = glob("dir%d/*");\n' % (i, i) + b"// filler\n" * max(0, (n // 60 - 26) // 10) for i in range(60)) + b'fn f() { info!("x"); }\n',
     "many-short-lines": lambda n: b"\n".join(b"x;" for _ in range(n // 3)) + b'\ninfo!("x");\n',
 }
 
@@ -270,7 +273,7 @@ def size_family(v, work, tier, pool):
                         {"family": fam, "bytes": nbytes, "mode": "check" if check else "edit", "structured": structured,
                          "timed_out": timed_out, "signal": sig, "exit": ex, "wall_s": round(wall, 2), "stderr": err.decode("utf-8", "replace")})
     v.coverage["max_wall_s_by_family"] = walls
-    v.subspace("size family: 7 ordinary shapes x sizes %r x style x mode (wall limit 100 s up to 100 kB, 400 s up to 1 MB, 1800 s beyond)" % sizes, len(jobs))
+    v.subspace("size family: 8 ordinary shapes x sizes %r x style x mode (wall limit 100 s up to 100 kB, 400 s up to 1 MB, 1800 s beyond)" % sizes, len(jobs))
 
 
 def run(tier, v):
